@@ -753,7 +753,7 @@ def _():
                             "unit": rng.choice(["cell", "m2", "km2"]), "own": rng.random() < 0.5}, call)
 
 
-@op("subgrid_riv", classes=R, group="subgrid", variants=2)
+@op("subgrid_riv", classes=R, group="subgrid", variants=3)
 def _():
     def call(W, a):
         up = W.uparea_distinct()
@@ -772,7 +772,7 @@ def _():
         rs = W.flw.subgrid_rivslp(idxs_out, W.arr("elevf", np.float64), length=a["length"], direction=a["sdir"],
                                   method=a["smethod"], mask=msk)
         return rl, ra, rm, rs
-    return (lambda rng, w: {"s": rng.choice([1, 2, 2, 3, 3]), "own": rng.random() < 0.5, "method": rng.choice(["eam_plus", "dmm"]),
+    return (lambda rng, w: {"s": rng.choice([1, 2, 2, 2, 3, 3, 3]), "own": rng.random() < 0.5, "method": rng.choice(["eam_plus", "dmm"]),
                             "outs": rng.random() < 0.8, "mask": rng.random() < 0.4,
                             "drop": rng.choice([0, 0, 1, 2, 3, 5]), "weights": rng.random() < 0.4,
                             "direction": rng.choice(["up", "down"]), "unit": rng.choice(["cell", "m"]),
